@@ -671,6 +671,8 @@ def run(prog, ctx):
                     verdict, wit = True, ""
         res.tri(verdict, "C10.P", "C10.P|pmf|pass", "%s: %s" % (fp_.id, wit), fp_.id)
     res.rule("C10.P", n_p, 3, "cdf / pmf construction from rank")
+    # the centroid means rank/quantile interpolate between: a merged mean is the finite weighted mean, exact for ties (C15.A)
+    C.import_rules(res, prog, ctx, "C10.A", "C15", ("C15.A",), "merged centroid mean", 3)
     res.explanation = ("the expression returned at each return site of rank()/quantile() is extracted with the branch decisions of every path to it and "
                        "summaries of the accumulation loops in front of it, and evaluated on %d sampled digest states satisfying the digest invariants; "
                        "range and monotonicity in the query are checked per site" % n_digests)
